@@ -105,6 +105,8 @@ def run_group(g, scratch, tree):
     src = os.path.join(tree, "src")
     inc = ["-I" + src, "-I" + COMMON, "-I" + os.path.join(VERIF, "contracts")] + ["-I" + os.path.join(VERIF, "contracts", i) for i in g.includes]
     defs = ["-Dprivate=public", "-Dprotected=public", "-DVERIF_CBMC=1"] + ["-D" + d for d in g.defines]
+    if not any(d.startswith("VERIF_PURE_BODY") for d in g.defines):
+        defs.append('-DVERIF_PURE_BODY={ __CPROVER_assert(0, "pure virtual called"); }')   # T5
     unity = os.path.join(VERIF, "contracts", g.unity)
     objs = []
     a_gb = os.path.join(wd, "a.gb")
